@@ -9,7 +9,8 @@
 (*               status],  crash, cnt, rtrust, has_exp, exp, exp_cnt]                        *)
 (*         one request to that application, in order.  cnt (the private counter), rtrust     *)
 (*         (check_host_trust) and exp (expectation exported from MCDebugger) are only used   *)
-(*         for the model-drift report, never for a verdict.                                  *)
+(*         for the model-drift report, never for a verdict.  Verdicts come from             *)
+(*         DebuggerGate!Safety only; DebuggerGate!Usability mismatches are drift records.    *)
 (* Verdicts are total: a rejected line prints a reject record and judging goes on.           *)
 EXTENDS HostTrust, DebuggerGate, TLC, Json, IOUtils
 
@@ -80,7 +81,10 @@ Next ==
             IF ~WellFormedReq(ln) THEN UNCHANGED <<cfg, fails, mcnt>> /\ Reject(ln, "MalformedTraceLine")
             ELSE LET q == Q(ln, cfg)  c == C(cfg)
                      m == ImplStep("fixed", c, mcnt, q, ln.rtrust) IN
-                 /\ Reject(ln, IF ln.crash # "" THEN "NoOtherFailure" ELSE Clause(c, fails, q, ln.o))
+                 /\ Reject(ln, IF ln.crash # "" THEN "NoOtherFailure" ELSE Safety(c, fails, q, ln.o))
+                 /\ LET u == IF ln.crash # "" THEN "ok" ELSE Usability(c, fails, q, ln.o) IN
+                    IF u = "ok" THEN TRUE
+                    ELSE PrintT(ToJson([drift |-> 1, t |-> ln.t, i |-> ln.i, pin_on |-> cfg.pin_on, what |-> u]))
                  /\ fails' = ContractNext(c, fails, q, ln.o)
                  /\ mcnt' = ln.cnt
                  /\ cfg' = cfg
